@@ -198,6 +198,26 @@ def run(ctx):
     # the property itself, evaluated on the implementation: reader after writer is the identity
     # on the domain, and range violations raise
     prop_bad = []
+    # timestamps given in DST-observing zones (zoneinfo), in and around the repeated and the skipped hour, fold 0 and 1:
+    # the writer emits the INSTANT's milliseconds (computed here by astimezone(UTC) and exact integer arithmetic)
+    import datetime as _dt
+    import zoneinfo as _zi
+    _epoch_utc = _dt.datetime(1970, 1, 1, tzinfo=_dt.timezone.utc)
+    for zname, y, mo, d in (("America/New_York", 2024, 11, 3), ("Europe/Berlin", 2023, 10, 29), ("Europe/London", 2024, 3, 31),
+                            ("America/New_York", 2024, 3, 10), ("Australia/Lord_Howe", 2024, 4, 7)):
+        z = _zi.ZoneInfo(zname)
+        for hh, mm in ((0, 30), (1, 0), (1, 30), (1, 45), (2, 0), (2, 30), (3, 0), (3, 30)):
+            for fold in (0, 1):
+                for ms in (0, 250):
+                    v = _dt.datetime(y, mo, d, hh, mm, 7, ms * 1000, tzinfo=z, fold=fold)
+                    want_ms = (v.astimezone(_dt.timezone.utc) - _epoch_utc) // _dt.timedelta(milliseconds=1)
+                    for wname in ("write_datetime_i64", "write_nullable_datetime_i64"):
+                        if wname not in pub_w:
+                            continue
+                        got = call_writer(pub_w[wname], v)
+                        if got != ("ok", want_ms.to_bytes(8, "big", signed=True)):
+                            prop_bad.append({"function": wname, "value": f"{v!r} (fold={fold})",
+                                             "what": f"wrote {got[1].hex() if got[0] == 'ok' else got[1]}, the instant is {want_ms} ms since the epoch"})
     # Kafka's BOOLEAN: one byte, zero is false, EVERY non-zero byte is true (all 256 values)
     if "read_boolean" in pub_r:
         wrong = [b0 for b0 in range(256) if call_reader(pub_r["read_boolean"], bytes([b0]))[:2] != ("ok", ("bool", b0 != 0))]
